@@ -196,6 +196,7 @@ func TestPrivateUntilCommitAndCopies(t *testing.T) {
 		ev.Case(vk.name+string(b)+fmt.Sprint(r.Log), nt, cls...)
 		ev.ExtraAdd("lookups", int64(r.Lookups))
 		ev.ExtraAdd("hits", int64(r.Hits))
+		ev.ExtraAdd("direct_block_writes", int64(r.DirectBlockWrites))
 		ev.ExtraAdd("must_hit_lookups", int64(r.MustHits))
 		if nt && ev.WantSample() {
 			lg := r.Log
